@@ -445,8 +445,13 @@ func writeEvidence(root, prop, tier string, seed int, results []*HarnessResult, 
 	bounds := map[string]interface{}{}
 	oblig, disch := 0, 0
 	validated := 0
+	states, transitions := 0, 0
 	for _, r := range results {
 		validated += r.Validated
+		// nodes / edges of the symbolic execution tree explored: every new
+		// decision point is an inner node, every completed path a leaf
+		states += r.Decisions + r.Paths
+		transitions += r.Decisions + r.Forks
 		evals += r.Paths
 		distinct += r.Distinct
 		for i, s := range r.Samples {
@@ -517,9 +522,11 @@ func writeEvidence(root, prop, tier string, seed int, results []*HarnessResult, 
 		"coverage": map[string]interface{}{
 			"evaluations":                   evals,
 			"distinct_nontrivial":           distinct,
-			"rule":                          "one evaluation = one complete symbolic path of a harness through the real SSA (each path stands for all values of the symbolic variables satisfying its path condition); non-trivial = the path contains at least one branch or case split decided by the SMT solver; distinct = by decision sequence",
+			"rule":                          "one evaluation = one complete symbolic path of a harness through the real SSA (each path stands for all values of the symbolic variables satisfying its path condition); non-trivial = the path contains at least one branch, case split or property assertion decided by the SMT solver; distinct = by decision sequence (schedule, crash point and map-order picks included). states/transitions = nodes/edges of the symbolic execution tree (decision points and completed paths)",
 			"samples":                       samples,
 			"traces_validated_against_impl": validated,
+			"states":                        states,
+			"transitions":                   transitions,
 			"explanation":                   "bounded symbolic execution of the repository's Go code (go/ssa) with z3 deciding every symbolic branch and every property assertion; path set closed under the solver's feasibility answers",
 			"exhaustive":                    len(incon) == 0,
 			"obligations":                   oblig,
